@@ -44,6 +44,8 @@ def family(pid, tier, seed):
             gs.append(g)
     elif pid == "C02":
         gs = leak_family(rng, quick)
+        # attempts abandoned because user code failed part-way
+        gs += [g for g in curated_core(rng, with_tokens=False) if g["id"] in ("x9", "x10")]
     elif pid == "C10":
         n, bases, resp = (20, 40, 6) if quick else (100, 100, 10)
         for i in range(n):
@@ -117,7 +119,7 @@ def family(pid, tier, seed):
             GG.exhaustive_inputs(g, exh, seen)
             GG.random_inputs(g, rng, rnd, 9, seen)
             gs.append(g)
-        gs += [g for g in curated_core(rng, with_tokens=False) if g["id"] in ("u0", "u1", "x2", "x3", "x6", "x7")]
+        gs += [g for g in curated_core(rng, with_tokens=False) if g["id"] in ("u0", "u1", "x2", "x3", "x6", "x7", "x9", "x10")]
         # the same production tried at two raw positions that differ only by an explicitly consumed elided token (equal
         # non-elided cursors), first failing and then matching
         cap = lambda f, fk, kid: {"op": "cap", "f": f, "fk": fk, "kid": kid}
@@ -238,6 +240,12 @@ def curated_core(rng, with_tokens=True):
     # user code that consumes a token and then says "no match", at the head of alternatives and of repeated groups
     gs.append(mk_grammar("x2", [("P0", seq(grp("star", grp("once", alt(cap("W", "unode2", {"op": "user2"}), cap("N", "strings", ref("Int")), seq(lit("("), cap("S", "strings", ref("Ident")))))), grp("opt", lit("!"))),
                                  [F("W", "unode2"), F("N", "strings"), F("S", "strings")])], ks=(0, 1, 2, -1, -3)))
+    # user code that FAILS after taking a token, with an error wrapping the "no match" sentinel: a failed attempt like any other
+    gs.append(mk_grammar("x9", [("P0", seq(grp("star", grp("once", alt(cap("W", "unode3", {"op": "user3"}), cap("N", "strings", ref("Int"))))),
+                                           grp("star", cap("R", "strings", grp("once", alt(ref("Ident"), lit("!"), lit("(")))))),
+                                 [F("W", "unode3"), F("N", "strings"), F("R", "strings")])], ks=(0, 1, 2, -1, -3)))
+    gs.append(mk_grammar("x10", [("P0", seq(grp("opt", cap("W", "unode3", {"op": "user3"})), grp("star", cap("R", "strings", grp("once", alt(ref("Ident"), lit("!"), ref("Int")))))),
+                                  [F("W", "unode3"), F("R", "strings")])], ks=(0, 1, 2, -1)))
     # a nullable production inside an optional group that fails after it (nothing consumed, captures pending)
     gs.append(mk_grammar("x3", [("P0", seq(grp("opt", seq(cap("L", "node", {"op": "prod", "p": "P1"}), lit("!"))), cap("V", "string", ref("Ident"))), [F("L", "node", "P1"), F("V", "string")]),
                                  ("P1", grp("star", cap("M", "strings", lit("("))), [F("M", "strings")])], ks=(0, 1, 2, -1)))
@@ -267,7 +275,8 @@ def curated_core(rng, with_tokens=True):
     # explicit EOF
     gs.append(mk_grammar("e0", [("P0", seq(grp("plus", cap("W", "strings", ref("Ident"))), grp("once", alt(lit(";"), ref("EOF")))), [F("W", "strings")])], trailing=True))
     gs.append(mk_grammar("e1", [("P0", seq(cap("A", "string", ref("Ident")), grp("opt", cap("B", "strings", ref("Int"))), grp("once", alt(seq(lit("!"), ref("EOF")), ref("EOF"), lit("(")))), [F("A", "string"), F("B", "strings")])], trailing=True, ks=(0, 1, -1)))
-    extra_inputs = {"x5": ["A b", "a B Xy", "XY xy A", "A Q", "b q", "B b a A"], "x6": ["a b )", "a b (", "a b", "a b ( )"],
+    extra_inputs = {"x9": ["x y !", "x ! y !", "x ! y", "7 ! 7 x", "x ! 7 y ! ( z", "x"], "x10": ["x y !", "x ! y", "x", "7 7 !", "x ! x !"],
+                    "x5": ["A b", "a B Xy", "XY xy A", "A Q", "b q", "B b a A"], "x6": ["a b )", "a b (", "a b", "a b ( )"],
                     "x7": ["a b ) x", "a b ( x", "a b", "a b ) ( )", "x"], "x8": ["#k# x #c#", "x", "#k#", "( #k# x", " #a##b# x ( #c#"]}
     for g in gs:
         seen = set()
